@@ -1,5 +1,93 @@
 import PpciVerif.Model.SRec
 import PpciVerif.Spec.SRec
+import PpciVerif.Proofs.SRec
+/-!
+# C19 — S-record output decodes to the object's code
+
+Property theorems only.  Model: `Model.SRec` (hand model of `ppci/format/srecord.py`
+after the repair commit, tied by correspondence; `Model.SRec.Legacy` = the code before
+it).  Spec: `Spec.SRec` (strict reader written from the Motorola format).  The object
+is its code section: `address` and the bytes `data`; no bound on the length.
+-/
 namespace Props.C19
-theorem stub : True := trivial
+deriving instance DecidableEq for Except
+open Spec.SRec Proofs.SRec
+open Model.SRec (writeSrecord toLine)
+
+/-- b"HDR" -/
+def HDR : List Nat := [72, 68, 82]
+
+/-- The file decodes, with the independent reader, to exactly the code bytes at their
+    addresses (each address once, ascending), header text "HDR", start address 0 —
+    for code of ANY length at ANY address with end ≤ 2^32 (so beyond 64 KiB and 16 MiB too). -/
+theorem reader_decodes_written_file (address : Nat) (data : List Nat) (hd : ∀ b ∈ data, b < 256)
+    (hend : address + data.length ≤ 4294967296) :
+    ∃ lines, writeSrecord address data = .ok lines ∧
+      Spec.SRec.read lines = some ⟨some HDR, cellsOf address data, 0⟩ := by
+  obtain ⟨typ, asz, e, _, _, _, _, h1, _, h3⟩ := write_spec address data hd hend
+  exact ⟨_, h1, h3⟩
+
+/-- Every emitted line satisfies the record grammar with a correct count and checksum
+    (`parseRecord` checks exactly these). -/
+theorem every_record_valid (address : Nat) (data : List Nat) (hd : ∀ b ∈ data, b < 256)
+    (hend : address + data.length ≤ 4294967296) :
+    ∃ lines recs, writeSrecord address data = .ok lines ∧ parseAll lines = some recs ∧
+      lines.length = recs.length := by
+  obtain ⟨typ, asz, e, _, _, _, _, h1, h2, _⟩ := write_spec address data hd hend
+  refine ⟨_, _, h1, h2, ?_⟩
+  have : ∀ (ls : List (List Char)) (rs : List Record), parseAll ls = some rs → ls.length = rs.length := by
+    intro ls
+    induction ls with
+    | nil => intro rs h; simp only [parseAll, Option.some.injEq] at h; subst h; rfl
+    | cons l ls ih =>
+      intro rs h
+      simp only [parseAll] at h
+      cases hl : parseRecord l with
+      | none => simp [hl] at h
+      | some r =>
+        cases hls : parseAll ls with
+        | none => simp [hl, hls] at h
+        | some rs' =>
+          simp only [hl, hls, Option.some.injEq] at h
+          subst h; simp [ih rs' hls]
+  exact this _ _ h2
+
+/-- The header text is carried by an S0 record (the first line) and by nothing else: all
+    other records are data records of ONE type `typ` ∈ {S1,S2,S3} whose payloads concatenate
+    to exactly the code, followed by the termination record S(10-typ); the address field of
+    that type is wide enough for the highest address. -/
+theorem header_only_in_S0 (address : Nat) (data : List Nat) (hd : ∀ b ∈ data, b < 256)
+    (hend : address + data.length ≤ 4294967296) :
+    ∃ lines typ drecs, writeSrecord address data = .ok lines ∧
+      parseAll lines = some (⟨0, 0, HDR⟩ :: drecs ++ [⟨10 - typ, 0, []⟩]) ∧
+      (typ = 1 ∨ typ = 2 ∨ typ = 3) ∧ address + data.length ≤ 256 ^ (typ + 1) ∧
+      (∀ r ∈ drecs, r.typ = typ) ∧ (drecs.map (·.data)).flatten = data := by
+  obtain ⟨typ, asz, e, h1, h2, h3, h4, h5, h6, _⟩ := write_spec address data hd hend
+  subst h2 h3
+  exact ⟨_, typ, dataRecs typ address (Model.SRec.chunks30 data), h5, h6, h1, h4, dataRecs_typ _ _ _,
+    by rw [dataRecs_payload, (chunks30_spec data).1]⟩
+
+/-! ### non-vacuity and witnesses -/
+
+example : writeSrecord 0xFFFE [1, 2, 3] = .ok
+    ["S00600004844521B".toList, "S20700FFFE010203F5".toList, "S804000000FB".toList] := by decide +kernel
+
+example : (writeSrecord 0xFFFE [1, 2, 3]).toOption.bind Spec.SRec.read
+    = some ⟨some HDR, [(0xFFFE, 1), (0xFFFF, 2), (0x10000, 3)], 0⟩ := by decide +kernel
+
+/-- defect 1 (before the repair): the header text is an S1 data record — the reader finds
+    no header and three bytes 'H','D','R' of "code" at address 0 for an EMPTY code section -/
+example : (Model.SRec.Legacy.writeSrecord 0 []).toOption.bind Spec.SRec.read
+    = some ⟨none, [(0, 72), (1, 68), (2, 82)], 0⟩ := by decide +kernel
+
+/-- defect 2 (before the repair): an S1 record for address 0x10000 carries address 0x0000 -/
+example : (Model.SRec.Legacy.toLine 1 0x10000 [0xAA]).toOption.bind parseRecord
+    = some ⟨1, 0, [0xAA]⟩ := by decide +kernel
+/-- the repaired `to_line` refuses it; `write_srecord` switches to S2 -/
+example : toLine 1 0x10000 [0xAA] = .error .ValueError := by decide +kernel
+
+/-- defect 3 (before the repair): the section address is not used -/
+example : (Model.SRec.Legacy.writeSrecord 0x8000 [7]).toOption.bind Spec.SRec.read
+    = some ⟨none, [(0, 72), (1, 68), (2, 82), (0, 7)], 0⟩ := by decide +kernel
+
 end Props.C19
